@@ -5,6 +5,8 @@ import Mathlib.Analysis.Calculus.Deriv.Basic
 import Mathlib.Analysis.Calculus.Deriv.Comp
 import Mathlib.Analysis.Calculus.Deriv.Pi
 import Mathlib.Analysis.Calculus.FDeriv.Add
+import Mathlib.Analysis.Calculus.FDeriv.Linear
+import Mathlib.Topology.Algebra.Module.FiniteDimension
 
 /-!
 # Reverse-mode differentiation is correct: vector–Jacobian products compose (for C01)
@@ -142,6 +144,52 @@ theorem Net.grad {n k : ℕ} (net : Net n k) (x : Vec n) (h : net.Ok x) (ℓ : V
     (hl : IsGrad ℓ (net.fwd x) g) : IsGrad (ℓ ∘ net.fwd) x (net.bwd x g) :=
   IsGrad.comp_vjp (Net.vjp net x h) hl
 
+
+/-- re-indexing along a bijection (flatten / reshape keep the row-major sequence: they are re-indexings):
+    the gradient is re-indexed back -/
+theorem isVJP_reindex (e : κ ≃ ι) (x : V ι) : IsVJP (fun y : V ι => fun k => y (e k)) x (fun g => fun i => g (e.symm i)) := by
+  refine ⟨LinearMap.toContinuousLinearMap (LinearMap.funLeft ℝ ℝ e), ?_, ?_⟩
+  · exact (LinearMap.toContinuousLinearMap (LinearMap.funLeft ℝ ℝ e)).hasFDerivAt
+  · intro g v
+    simp only [LinearMap.coe_toContinuousLinearMap', dot]
+    show ∑ i, g (e.symm i) * v i = ∑ k, g k * (LinearMap.funLeft ℝ ℝ e v) k
+    simp only [LinearMap.funLeft_apply]
+    exact (Equiv.sum_comp e (fun i => g (e.symm i) * v i)).symm.trans (by simp)
+
+/-! ### any depth, any index types (spatial layers: `Fin c × Fin h × Fin w`, kernels, …) -/
+
+/-- a finite index type -/
+structure Idx where
+  T : Type
+  [ft : Fintype T]
+
+instance (a : Idx) : Fintype a.T := a.ft
+
+/-- a stack of layers between arbitrary finite index types -/
+inductive GNet : Idx → Idx → Type 1
+  | nil (a : Idx) : GNet a a
+  | cons {a b c : Idx} (f : V a.T → V b.T) (bwd : V a.T → V b.T → V a.T) (rest : GNet b c) : GNet a c
+
+def GNet.fwd : {a c : Idx} → GNet a c → V a.T → V c.T
+  | _, _, .nil _, x => x
+  | _, _, .cons f _ rest, x => rest.fwd (f x)
+
+def GNet.bwd : {a c : Idx} → GNet a c → V a.T → V c.T → V a.T
+  | _, _, .nil _, _, g => g
+  | _, _, .cons f b rest, x, g => b x (rest.bwd (f x) g)
+
+def GNet.Ok : {a c : Idx} → GNet a c → V a.T → Prop
+  | _, _, .nil _, _ => True
+  | _, _, .cons f b rest, x => IsVJP f x (b x) ∧ rest.Ok (f x)
+
+/-- the reverse walk over a heterogeneous stack computes its transposed Jacobian -/
+theorem GNet.vjp : ∀ {a c : Idx} (net : GNet a c) (x : V a.T), net.Ok x → IsVJP net.fwd x (net.bwd x)
+  | _, _, .nil _, x, _ => isVJP_id x
+  | _, _, .cons f b rest, x, h => IsVJP.comp h.1 (GNet.vjp rest (f x) h.2)
+
+theorem GNet.grad {a c : Idx} (net : GNet a c) (x : V a.T) (h : net.Ok x) (ℓ : V c.T → ℝ) (g : V c.T)
+    (hl : IsGrad ℓ (net.fwd x) g) : IsGrad (ℓ ∘ net.fwd) x (net.bwd x g) :=
+  IsGrad.comp_vjp (GNet.vjp net x h) hl
 
 /-- **a network with an additive skip connection around its middle part** (`head`, then `mid` with
     the skip `y ↦ mid y + y`, then `tail`; any depths): the reverse walk in which the skip's source
